@@ -166,6 +166,7 @@ Definition src_ok_b (O : oracles) (o : options) (pf : pfile) : bool :=
       nondecr_b (Journal.times j) && forallb (fun t => (0 <? t)%Z) (Journal.times j)
       && forallb (fun e => nl_term_b (JournalRender.entry_bytes
                                         (JournalRender.next_entry JournalTables.src_cfg (op_jenv o) (op_jout o) e))) j
+  | KTextRows _ _ => false          (* text files read through the per-row regex model: not generated by this check (Proofs/ProgramRegex.v) *)
   end.
 
 Fixpoint first_bad_src (O : oracles) (o : options) (i : N) (files : list pfile) : option N :=
